@@ -67,6 +67,16 @@ def record(chk, cases, n_per_class):
                 continue
             events.append({"ev": "DecodeBytes", "cls": name, "in": list(out),
                            "out": {k: num(int(v)) for k, v in dec.items() if isinstance(v, int)}})
+            # re-encoding the decoded dictionary, exactly as it came back, reproduces the bytes
+            cmds.benign(name)
+            try:
+                again = bytes(K.marshall_cdb(dict(dec)))
+            except Exception as ex:
+                again = ("raised " + type(ex).__name__).encode()
+            if again != bytes(out):
+                chk.violation({"clause": "EncDec", "cls": name, "field": "re-encode of the decoded dictionary",
+                               "detail": {"bytes": list(out), "decoded": {k: int(v) for k, v in dec.items() if isinstance(v, int)},
+                                          "re-encoded": list(again)}}, dedup=("EncDec", name, "reencode"))
             # the caller edits the dictionary it got, then decodes the same bytes again:
             # the second result must again be what the bytes say
             for k in list(dec):
